@@ -16,10 +16,12 @@ open Ddo Ddo.Examples
 -- proved
 
 /-- `TsptwRelax::relax` is the identity on costs -/
-theorem relax_id (T : Tab) (src u m : St) (d : Dec) (c : Int) : (relaxation T).relax src u m d c = c := rfl
+theorem relax_id (T : Tab) (src u m : St) (d : Dec) (c : Int) : (relaxationOld T).relax src u m d c = c := rfl
+theorem relax_eq (T : Tab) (src u m : St) (d : Dec) (c : Int) :
+    (relaxation T).relax src u m d c = c + ((u.el.earliest : Int) - (m.el.earliest : Int)) := rfl
 
 /-- `merge` is the `merge` of the relaxation (no table is read) -/
-theorem relaxation_merge (T : Tab) (X : List St) : (relaxation T).merge X = merge X := rfl
+theorem relaxation_merge (T : Tab) (X : List St) : (relaxationOld T).merge X = merge X := rfl
 
 /-- the root: at the depot, at time 0, value 0 — the value invariant holds at the root -/
 theorem valueInv_root (T : Tab) : valueInv (problem T).init (problem T).initVal = true := by
@@ -111,10 +113,12 @@ theorem ex_values : bestRem exT exU = some (-70000) ∧ bestRem exT exW = some (
     `-10` (from time `1`, e.g. `2 1 3` and back, skipping city 4, ends at `11`: the wait at a city that opens at `10` is
     charged in full), and `relax` keeps the cost: `-5 - 7 > -5 - 10`.
     Consequence in the solver: the local bound of the root through this arc is `-15`, the best tour through `exU` is `-12`. -/
-theorem potential_form_fails : mergeOkAt exT exU exM (-50000) ((relaxation exT).relax (initSt exT) exU exM ⟨0, 1⟩ (-50000)) = false := by decide
+theorem potential_form_fails : mergeOkAt exT exU exM (-50000) ((relaxationOld exT).relax (initSt exT) exU exM ⟨0, 1⟩ (-50000)) = false := by decide
+/-- with the repaired `relax` the potential form holds on the same arc -/
+theorem potential_form_holds_repaired : mergeOkAt exT exU exM (-50000) ((relaxation exT).relax (initSt exT) exU exM ⟨0, 1⟩ (-50000)) = true := by decide
 
 /-- `Wf.MergeOk` itself fails with the value-to-go of the model as potential -/
-theorem not_wf_mergeOk : ¬ MergeOk (relaxation exT) (fun _ s => bestRem exT s) := by
+theorem not_wf_mergeOk : ¬ MergeOk (relaxationOld exT) (fun _ s => bestRem exT s) := by
   intro h
   have h1 := h 1 [exU, exW] exU (initSt exT) ⟨0, 1⟩ (-50000) (-70000) (by simp) ex_values.1
   obtain ⟨h', e, le⟩ := h1
